@@ -85,8 +85,15 @@ class C15(Property):
         cfg = world.cfg
         stacks = self.known_stacks(world)
         if not stacks and rng.chance(0.5) or rng.chance(0.15):
-            return {"op": "put_stack", "path": rng.pick(STACKS), "arr": self.gen_stack_recipe(rng, cfg),
-                    "nsymbt": rng.pick([0, 0, 0, 160])}
+            st = {"op": "put_stack", "path": rng.pick(STACKS), "arr": self.gen_stack_recipe(rng, cfg),
+                  "nsymbt": rng.pick([0, 0, 0, 160])}
+            if stacks and rng.chance(0.5):
+                # a new acquisition replaces an existing stack file: same name, same shape and type, other pixels
+                st["path"] = rng.pick(stacks)
+                old = self.stack_of(world, st["path"])
+                st["arr"] = dict(st["arr"], shape=[int(v) for v in old.shape], dtype=str(old.dtype))
+                st["nsymbt"] = 0
+            return st
         op = rng.pick(OPS)
         if stacks and rng.chance(0.55):
             src = {"kind": "path", "path": rng.pick(stacks)}
